@@ -12,7 +12,7 @@ TECHNIQUE = "property-based testing: constructed interior cell centres, stored v
 RULE = ("Hypothesis-generated nested 3D plotfiles (non-zero origin, anisotropic cells, 1-3 levels, any layout, finite "
         "random payload |v| <= 1e3) x ~10 query points per plotfile constructed as centres of cells that belong to the "
         "finest selected level covering them and lie >= 1 cell inside their box, x field selection (name, index, "
-        "name list, index list) x reader level limit; plus points outside the domain (below / above / far, one "
+        "ascending name / index list; permuted and negative index lists under the either-rule: refused or right) x reader level limit; plus points outside the domain (below / above / far, one "
         "coordinate at a time). Interior: every selected field's value within 1e-8*(1+max|box|) of the stored cell; "
         "outside: an exception. Non-trivial = origin != 0 or anisotropic or a point on level >= 1.")
 ASSUMPTIONS = ["cubic-spline evaluation at an integer node reproduces the node value to rounding (tolerance 1e-8 relative to the box)"]
@@ -27,7 +27,7 @@ def cases(draw, tier="quick"):
     pts = []
     for _ in range(draw(st.integers(6, 12))):
         kind = draw(st.sampled_from(["in", "in", "in", "in", "out"]))
-        fsel = draw(st.sampled_from(["name", "int", "names", "ints"]))
+        fsel = ["name", "int", "names", "ints", "names_perm", "ints_perm", "ints_neg"][draw(st.integers(0, 2 ** 16)) % 7]
         k = draw(st.lists(st.integers(0, nf - 1), min_size=1, max_size=nf, unique=True))
         pts.append(dict(kind=kind, fsel=fsel, fields=k, lv=draw(st.integers(0, nlev - 1)), box=draw(st.integers(0, 60)),
                         cell=[draw(st.integers(0, 40)) for _ in range(3)], dim=draw(st.integers(0, 2)),
@@ -63,9 +63,20 @@ def check_case(case, ctx):
         elif pt["fsel"] == "names":
             fi = sorted(pt["fields"])
             fobj, single = [names[i] for i in fi], False
-        else:
+        elif pt["fsel"] == "ints":
             fi = sorted(pt["fields"])
             fobj, single = list(fi), False
+        elif pt["fsel"] == "names_perm":         # as drawn: any order
+            fi = list(pt["fields"])
+            fobj, single = [names[i] for i in fi], False
+        elif pt["fsel"] == "ints_perm":
+            fi = list(pt["fields"])
+            fobj, single = list(fi), False
+        else:                                    # negative indices, any order
+            fi = list(pt["fields"])
+            fobj, single = [i - len(names) for i in fi], False
+        # ascending lists are the listed form; any other order may be refused but must never return other fields' values
+        either = pt["fsel"] in ("names_perm", "ints_perm", "ints_neg") and fi != sorted(fi) or pt["fsel"] == "ints_neg"
         if pt["kind"] == "out":
             centre = [(plot.geo_lo[d] + plot.geo_hi[d]) / 2 for d in range(3)]
             d = pt["dim"]
@@ -102,7 +113,8 @@ def check_case(case, ctx):
         try:
             got = qcall(lambda: pck[fobj](*xyz))
         except Exception as e:
-            v.append(f"point {pi} at the centre of level {lv} cell {cell} (box {b}, {xyz}) raised {type(e).__name__}: {e}")
+            if not either:
+                v.append(f"point {pi} at the centre of level {lv} cell {cell} (box {b}, {xyz}) raised {type(e).__name__}: {e}")
             continue
         g = np.atleast_1d(np.asarray(got, dtype=float)).ravel()
         if g.shape != (len(fi),):
